@@ -47,7 +47,7 @@ class CheckC06(core.Check):
         parsed = parse_name_simple(name)
         c = Case("kn-%s-%d" % (name, seed), desc)
         res = (rnd.choice(["D", "D", "R", "DR"]), rnd.choice(["D", "D", "R", "DR"]))
-        h = faults.History(c, name, seed, rnd.choice(["script", "script", "os"]), res=res, rec=("cr", "cr"), twin=False, transport=rnd.choice(["tr", "tr", "sl"]))
+        h = faults.History(c, name, seed, rnd.choice(["script", "script", "os"]), res=res, rec=("cr", "cr"), twin=False, transport=rnd.choice(["tr", "tr", "sl", "mixA", "mixB"]))
         maxp = sessions.max_payloads(parsed)
         paylens = [min(m, rnd.choice([0, 1, 5, 16, 33, 100])) for m in maxp]
         plan, ma, mb = faults.random_fault_plan(parsed, paylens, rnd, nslots=rnd.choice([1, 2, 3]), consecutive=rnd.choice([1, 2, 3]))
@@ -55,7 +55,7 @@ class CheckC06(core.Check):
         h.setup(missing_a=ma, missing_b=mb)
         h.handshake(paylens, plan)
         h.convert()
-        h.transport_phase(rnd, nmsgs=4, fault_rate=0.3, rekeys=True)
+        h.transport_phase(rnd, nmsgs=4, fault_rate=0.3, rekeys=True, manual=True, stray_setrx=True)
         if rnd.random() < 0.3:
             h.exhaustion_episode(rnd)
         h.done()
